@@ -5,29 +5,28 @@ from e1 import call_sites
 
 LEVEL = "proof"
 
-PEERS_ALLOW = {
-    r"StunAgent::validated_peer$": {("ref", r"HashSet::<.*>::contains::<"), ("refmut", r"HashSet::<.*>::insert$")},
-    r"StunAgent::is_validated_peer$": {("ref", r"HashSet::<.*>::contains::<")},
-    r"<stun_proto::agent::StunAgent as std::fmt::Debug>::fmt$": {("ref", r"^(core|std)::fmt::")},
-}
+PEERS_WRITERS = [r"StunAgent::validated_peer$"]
+PEERS_READERS = [r"StunAgent::is_validated_peer$"]
 
 
 def run(prog, chk, tier):
     chk.explanation = (
-        "who-may-access(StunAgent.validated_peers) = {validated_peer: contains/insert, is_validated_peer: contains, Debug}; "
-        "no remove/clear/retain/drain/assignment anywhere (monotone); who-may-call(validated_peer) = {handle_stun}; in the "
-        "extracted handle_stun table validated_peer(from) occurs exactly on the rows returning StunResponse or IncomingStun, "
-        "once, with the `from` parameter; validated_peer inserts when absent and never removes; is_validated_peer is the "
-        "membership test. With HashSet semantics this is the property.")
-    chk.trusted += ["rustc MIR", "std::collections::HashSet semantics", "spec tables in pylib/rules/agent.py"]
-    A.who_may_access(prog, chk, "who-may-access", A.AGENT_V, "validated_peers", PEERS_ALLOW, 4)
+        "who-may-touch(StunAgent.validated_peers) = {validated_peer: write, is_validated_peer: read, Debug}; "
+        "who-may-call(validated_peer) = {handle_stun}; handle_stun decided from the abstract interpreter's return states "
+        "(through validated_peer, with the set abstracted by the presence of symbolic addresses): the sender `from` - and "
+        "no other address - is present afterwards exactly in the states returning StunResponse or IncomingStun, the set "
+        "is untouched in the states returning Drop, nothing is ever removed; is_validated_peer answers exactly the "
+        "membership of its argument and changes nothing. With HashSet semantics this is the property.")
+    chk.trusted += ["rustc MIR", "std::collections::HashSet contains/insert semantics (model table)", "specification rows in pylib/rules/agent_e2.py"]
+    from rules import agent_e2 as AE
+    AE.touchers(prog, chk, "who-may-access", A.AGENT_V, "validated_peers", PEERS_READERS, PEERS_WRITERS, 3)
     cs = call_sites(prog, lambda n: n == A.AGENT + "::validated_peer")
     callers = sorted({re.sub(r"::\{closure#\d+\}", "", c["body"]) for c in cs})
     chk.ob("who-may-call", "validated_peer called only from handle_stun", callers == [A.AGENT + "::handle_stun"],
            detail=repr(callers))
-    chk.floor("validated_peer-call-sites", len(cs), 3)
-    A.handle_stun_table(prog, chk)
-    A.validated_peer_table(prog, chk)
+    chk.floor("validated_peer-call-sites", len(cs), 1)
+    AE.handle_stun(prog, chk)
+    AE.membership(prog, chk, "is_validated_peer", A.AGENT + "::is_validated_peer", "validated_peers", "remote_addr")
     # send / send_data / poll: no validated_peer event - implied by who-may-call; recorded for the evidence
     for fn in ("send", "send_data", "poll"):
         chk.ob("no-validation-on-output", "StunAgent::%s does not call validated_peer" % fn,
